@@ -60,14 +60,15 @@ Proof. intros e l He. exact (f16_legacy e He l). Qed.
 Print Assumptions C16_legacy_same_call.
 
 (* non-vacuity: isal_aes_gcm_enc_128 with in = NULL and len = 16 meets the hypotheses of
-   C16_offending_refused and returns ISAL_CRYPTO_ERR_NULL_SRC with an empty trace; with valid
+   C16_offending_refused and returns ISAL_CRYPTO_ERR_NULL_SRC with a quiet trace (no read, write or call); with valid
    arguments it meets those of C16_in_domain_served and reaches _aes_gcm_enc_128 *)
 Example C16_nonvacuous :
   In e_gcm specs /\ listed known16 e_gcm = false /\ is_neutral e_gcm = false /\
   ftab_get WrappersGen.table (e_id e_gcm) = Some WrappersGen.fn_isal_aes_gcm_enc_128 /\
   must_refuse w_null_src e_gcm /\
-  run WrappersGen.table w_null_src WrappersGen.fn_isal_aes_gcm_enc_128 = Leaf (Some (SConst NULL_SRC)) [] /\
+  (exists tr, run WrappersGen.table w_null_src WrappersGen.fn_isal_aes_gcm_enc_128 = Leaf (Some (SConst NULL_SRC)) tr /\
+              quiet tr = true) /\
   ~ may_refuse w_good e_gcm /\
-  run WrappersGen.table w_good WrappersGen.fn_isal_aes_gcm_enc_128 =
-    Leaf (Some (SConst 0)) [EvCall id_u_aes_gcm_enc_128 (map arg [0;1;2;3;4;5;6;7;8;9])]%N.
+  (exists tr, run WrappersGen.table w_good WrappersGen.fn_isal_aes_gcm_enc_128 = Leaf (Some (SConst 0)) tr /\
+              no_enter tr = [EvCall id_u_aes_gcm_enc_128 (map arg [0;1;2;3;4;5;6;7;8;9])]%N).
 Proof. exact nonvac16. Qed.
